@@ -8,6 +8,7 @@ func init() {
 	vpRegister("c11_validate", vpH_c11_validate)
 	vpRegister("c11_step", vpH_c11_step)
 	vpRegister("c11_tuple", vpH_c11_tuple)
+	vpRegister("c11_skip", vpH_c11_skip)
 }
 
 // vpTuple is a dimension->value tuple kept as parallel lists (the oracle never
@@ -253,4 +254,36 @@ func vpH_c11_tuple() {
 	} else {
 		vpAssert(err != nil, "a permutation that differs from the adjustment tuple in some dimension (and is no setup combination) is rejected")
 	}
+}
+
+// Every kind of skip value, with the string symbolic: absent and false do not
+// skip; true, any string (whatever it spells) and any other value do.
+func vpH_c11_skip() {
+	var skip any
+	want := true
+	switch vpInt(0, 6) {
+	case 0:
+		skip, want = nil, false
+	case 1:
+		skip, want = false, false
+	case 2:
+		skip = true
+	case 3:
+		skip = vpStrUpTo(5, " -~")
+	case 4:
+		skip = 0
+	case 5:
+		skip = 1.5
+	case 6:
+		skip = []any{}
+	}
+	adj := &MatrixAdjustment{With: MatrixAdjustmentWith{"a": "x"}, Skip: skip}
+	vpAssert(adj.ShouldSkip() == want, "skip is falsy exactly for absent and false; true, every string and every other value skip")
+	m := &Matrix{Setup: MatrixSetup{"a": {"y"}}, Adjustments: MatrixAdjustments{adj}}
+	err := m.validatePermutation(MatrixPermutation{"a": "x"})
+	vpAssert((err == nil) == !want, "a permutation equal to an adjustment tuple is accepted exactly when that adjustment does not skip")
+	// a setup combination that a skip-marked adjustment repeats is rejected too
+	m2 := &Matrix{Setup: MatrixSetup{"a": {"x"}}, Adjustments: MatrixAdjustments{adj}}
+	err2 := m2.validatePermutation(MatrixPermutation{"a": "x"})
+	vpAssert((err2 == nil) == !want, "a setup combination is accepted exactly when no adjustment with that tuple skips")
 }
